@@ -428,7 +428,7 @@ pub fn property() -> Property {
                 name: "fidelity",
                 rule: "templates generated from the documented grammar (literals with doubled braces, '{'+whitespace, newlines, placeholders {key[:[<^>][width][!][.style[/style]]]} over custom, built-in and unknown keys, widths 0..2^32) rendered on a 65535-column terminal and compared with the in-order concatenation of reference expansions; non-trivial = >=2 placeholders, '{ ' adjacent to literal text, or multi-line",
                 strategy: |_| fid_strategy(),
-                cases: |t| t.pick(12_000, 400_000),
+                cases: |t| t.pick(12_000, 1_600_000),
                 run: run_fidelity,
                 signature: no_signature,
                 essential: &["two_placeholders", "brace_ws_adjacent_to_literal", "multi_line", "escaped_braces", "unknown_key", "width", "truncate", "style", "width_gt_255"],
